@@ -7,7 +7,9 @@
 (* derives from a non-empty set of earlier user classes or from one of the *)
 (* builtins object / int / list) --, edges added later by                  *)
 (* add_subclass_edge, the registered generators with their current return  *)
-(* types, and the memo of all functools.lru_cache'd queries                *)
+(* types, the generator table of the provider (`tab`, what                 *)
+(* GeneratorProvider._generators holds: type -> generators registered      *)
+(* under it), and the memo of all functools.lru_cache'd queries            *)
 (* (TypeSystem.is_subclass / is_subtype / is_maybe_subtype /               *)
 (* subtype_distance / get_subclasses / get_superclasses, provider          *)
 (* _get_generators_for / _get_for_type).  `h` and `rel` are the closed     *)
@@ -30,7 +32,7 @@
 EXTENDS TypeSystemOps, TLC, SequencesExt
 
 CONSTANTS NUser,         \* number of user classes
-          Level,         \* universe: 0 atoms, 1 + depth-1 types, 2 + depth-2 types
+          Level,         \* universe: 0 atoms, 1 + depth-1 types, 2 + depth-2 types, 3 the tuple family
           MaxSteps,      \* bound on the number of calls after the analysis
           Deviations,    \* subset of AllDeviations
           Prov,          \* "G" GeneratorProvider (rank selection) | "R" RandomGeneratorProvider
@@ -77,7 +79,36 @@ Depth2 ==
   \cup {Tup(<<Uni(<<IntT, UA(1)>>), IntT>>), Tup(<<Tup(<<IntT>>), NoneT>>)}
   \cup {Inst("dict", <<Cl("str"), Inst("list", <<IntT>>)>>), Inst("set", <<Tup(<<IntT, UA(1)>>)>>)}
   \cup {Uni(<<Tup(<<IntT>>), UA(1)>>), Uni(<<NoneT, Tup(<<IntT, UA(1)>>)>>)}
-UniverseAt(lv) == SetToSeq(Atoms \cup (IF lv >= 1 THEN Depth1 ELSE {}) \cup (IF lv >= 2 THEN Depth2 ELSE {}))
+(* Tuple family (universe level 3): tuples of arity 0..3 that share prefixes -- element-wise *)
+(* equal or related through the class graph / the numeric tower / Any --, alone and nested   *)
+(* in generics, tuples and unions.  Tuples are of fixed size: two tuples of different arity  *)
+(* are unrelated in every relation (Sub, MaybeSub, Dist), whatever their common prefix is.   *)
+StrT == Cl("str")
+TupleAtoms == {AnyT, NoneT, IntT, Cl("float"), StrT, Cl("object"), UA(1), UA(2)}
+TupleAlone ==
+  {Tup(<<>>)}
+  \cup {Tup(<<x>>) : x \in {IntT, Cl("float"), UA(1), UA(2), AnyT, NoneT}}
+  \cup {Tup(<<x, y>>) : x \in {IntT, UA(1)}, y \in {IntT, StrT, UA(2)}}
+  \cup {Tup(<<Cl("float"), IntT>>), Tup(<<AnyT, AnyT>>)}
+  \cup {Tup(<<IntT, IntT, IntT>>), Tup(<<IntT, StrT, UA(1)>>), Tup(<<UA(1), UA(2), IntT>>),
+        Tup(<<UA(2), UA(2), UA(2)>>), Tup(<<AnyT, IntT, NoneT>>)}
+TupleNested ==
+  {Inst("list", <<t>>) : t \in {Tup(<<>>), Tup(<<IntT>>), Tup(<<IntT, IntT>>), Tup(<<IntT, IntT, IntT>>),
+                                Tup(<<UA(1)>>), Tup(<<UA(1), UA(2)>>)}}
+  \cup {Inst("set", <<Tup(<<IntT>>)>>), Inst("set", <<Tup(<<IntT, StrT>>)>>)}
+  \cup {Inst("dict", <<StrT, t>>) : t \in {Tup(<<IntT>>), Tup(<<IntT, IntT>>)}}
+  \cup {Tup(<<Tup(<<>>)>>), Tup(<<Tup(<<IntT>>)>>), Tup(<<Tup(<<IntT, IntT>>)>>), Tup(<<Tup(<<IntT>>), IntT>>)}
+  \cup {Uni(<<NoneT, t>>) : t \in {Tup(<<>>), Tup(<<IntT>>), Tup(<<IntT, IntT>>)}}
+  \cup {Uni(<<Tup(<<IntT>>), Tup(<<IntT, IntT, IntT>>)>>), Uni(<<UA(1), Tup(<<UA(1), UA(2)>>)>>)}
+TupleUniverse == TupleAtoms \cup TupleAlone \cup TupleNested
+\* a few of them in the general universes as well
+Depth1Tuples == {Tup(<<>>), Tup(<<IntT, IntT, UA(1)>>)}
+Depth2Tuples == {Inst("list", <<Tup(<<IntT>>)>>), Inst("list", <<Tup(<<IntT, IntT>>)>>),
+                 Uni(<<NoneT, Tup(<<IntT>>)>>)}
+UniverseAt(lv) ==
+  IF lv = 3 THEN SetToSeq(TupleUniverse)
+  ELSE SetToSeq(Atoms \cup (IF lv >= 1 THEN Depth1 \cup Depth1Tuples ELSE {})
+                      \cup (IF lv >= 2 THEN Depth2 \cup Depth2Tuples ELSE {}))
 UT == UniverseAt(Level)
 CS == SetToSeq(Classes)
 
@@ -110,10 +141,11 @@ VARIABLES hier,     \* sequence of declared classes: hier[i] = bases of C_i
           h,        \* closed form of the current class graph (MkH)
           rel,      \* relation matrices over the universe for the current graph
           gens,     \* registered generators
-          ret,      \* generator -> current return type
+          ret,      \* generator -> current return type (generated_type())
+          tab,      \* provider._generators as a set of <<type, generator registered under it>>
           memo,     \* lru_cache contents: key -> answer
           steps
-vars == <<hier, extra, h, rel, gens, ret, memo, steps>>
+vars == <<hier, extra, h, rel, gens, ret, tab, memo, steps>>
 
 Complete == Len(hier) = NUser
 EdgesOf(hr, ex) == BuiltinEdges \cup TowerEdges \cup HierEdges(hr) \cup ex
@@ -127,7 +159,10 @@ RelOf(hh, hr, ex) ==
    subc  |-> [i \in DOMAIN CS |-> [j \in DOMAIN CS |-> IsSubclass(hh, CS[i], CS[j])]],
    issub |-> LET py == BuiltinEdges \cup HierEdges(hr) \cup ex
              IN [i \in DOMAIN CS |-> [j \in DOMAIN CS |-> CS[i] \in Desc(py, CS[j])]]]
-Reg == [t \in {ret[g] : g \in gens} |-> {g \in gens : ret[g] = t}]   \* provider._generators
+\* provider._generators: type -> generators registered under it.  The providers iterate over
+\* the KEYS of this table and judge the key type, never generated_type() of the generator.
+TabOf(gs, rt) == {<<rt[g], g>> : g \in gs}
+Reg == [t \in {p[1] : p \in tab} |-> {p[2] : p \in {q \in tab : q[1] = t}}]
 
 (* ------------------------------------------------------------------ the caches *)
 NoT == [k |-> "-", c |-> "", a |-> <<>>]
@@ -248,6 +283,7 @@ NoRel == [sub |-> <<>>]
 Init == /\ hier = <<>> /\ extra = {} /\ h = NoH /\ rel = NoRel
         /\ gens = InitGens
         /\ ret = InitRet
+        /\ tab = TabOf(InitGens, InitRet)
         /\ memo = EmptyMemo
         /\ steps = 0
 
@@ -260,7 +296,7 @@ Declare(choice) ==
        /\ IF Len(hr) = NUser
           THEN LET hh == HOf(hr, {}) IN h' = hh /\ rel' = RelOf(hh, hr, {})
           ELSE UNCHANGED <<h, rel>>
-  /\ UNCHANGED <<extra, gens, ret, memo, steps>>
+  /\ UNCHANGED <<extra, gens, ret, tab, memo, steps>>
 
 \* TypeSystem.add_subclass_edge(super_class=sup, sub_class=sub); the graph stays acyclic
 AddSubclassEdge(sup, sub) ==
@@ -269,26 +305,31 @@ AddSubclassEdge(sup, sub) ==
          hh == HOf(hier, ex)
      IN extra' = ex /\ h' = hh /\ rel' = RelOf(hh, hier, ex)
   /\ memo' = MemoAfterAddEdge(memo)
-  /\ UNCHANGED <<hier, gens, ret>>
+  /\ UNCHANGED <<hier, gens, ret, tab>>
 
-\* ModuleTestCluster.add_generator(g)
+\* ModuleTestCluster.add_generator(g): GeneratorProvider.add registers g under generated_type()
 AddGenerator(g) ==
   /\ g \notin gens
   /\ gens' = gens \cup {g}
+  /\ tab' = tab \cup {<<ret[g], g>>}
   /\ memo' = MemoAfterAddGenerator(memo)
   /\ UNCHANGED <<hier, extra, h, rel, ret>>
 
-\* ModuleTestCluster.update_return_type(g, Instance(c)): clear_generator_cache() is called
+\* ModuleTestCluster.update_return_type(g, Instance(c)): _drop_generator removes the registration
+\* under the OLD return type, clear_generator_cache(), the signature gets the new return type,
+\* add_for_type registers g under the NEW type.  Any -> {c} narrows what g is good for,
+\* T -> T | c widens it.
 UpdateReturnType(g, c) ==
   /\ g \in gens \cap FuncGens
   /\ LET new == AddOrMakeUnion(ret[g], c) IN
        /\ new # ret[g]
        /\ ret' = [ret EXCEPT ![g] = new]
+       /\ tab' = (tab \ {<<ret[g], g>>}) \cup {<<new, g>>}
   /\ memo' = MemoAfterUpdateReturnType(memo)
   /\ UNCHANGED <<hier, extra, h, rel, gens>>
 
 Query(k) == /\ memo' = AfterQuery([h |-> h, reg |-> Reg, prov |-> Prov], memo, k)
-            /\ UNCHANGED <<hier, extra, h, rel, gens, ret>>
+            /\ UNCHANGED <<hier, extra, h, rel, gens, ret, tab>>
 
 Next == \/ \E ch \in HierChoices(Len(hier) + 1) : Declare(ch)
         \/ /\ Complete /\ steps < MaxSteps
@@ -327,6 +368,14 @@ CacheCoherent ==
   Complete => LET st == [h |-> h, reg |-> Reg, prov |-> Prov]
               IN \A k \in DOMAIN memo : memo[k] = Raw(st, EmptyMemo, k)
 
+\* every generator is registered exactly once, under the type it generates now
+TableConsistent == tab = TabOf(gens, ret)
+\* C26 along a history: every generator in a memoised offered set returns -- NOW -- a type that
+\* may be a subtype of the requested type.  (Holds under NoProviderClearOnAddEdge too: an offered
+\* set that survives an edge only misses generators, the relations grow with the graph.)
+OfferedNowCompatible ==
+  Complete => \A k \in DOMAIN memo : k.q = "offered" => \A g \in memo[k].s : MaybeSub(h, ret[g], k.l)
+
 (* all laws by name: the deviation runs report which of them fail *)
 LawNames == {"Refl", "Trans", "AnyTop", "UnionAll", "InstFollowsClass", "AgreesWithIssubclass",
              "DistDefinedOnlyWhenMaybeSub", "DistZeroOnIdentity", "DistDefinedIffMaybeSub",
@@ -346,6 +395,7 @@ ViolatedLaws == {n \in LawNames : ~Holds(n)}
 ReportViolated == (Complete /\ ViolatedLaws # {}) => PrintT(<<"VIOLATED", ViolatedLaws>>)
 
 TypeOK == /\ gens \subseteq DOMAIN ret
+          /\ TableConsistent
           /\ steps \in 0..MaxSteps
           /\ extra \subseteq UserSet \X UserSet
           /\ Len(hier) <= NUser
